@@ -4,6 +4,8 @@ import numpy as np
 
 DIMS = ['x', 'y', 'z', 'w', 't']
 STR_POOL = list('abcdefghijklmnopqrstuv')
+# str labels that read as numbers (years, codes, zero-padded ids): still strings - lexicographic order, exact match, str on disk
+NUMSTR_POOL = ['9', '10', '100', '007', '1e3', '-2', '2.5', '42', '+1', '0', '1950', '800', '20', '3']
 BIG = 20200000
 
 
@@ -14,7 +16,7 @@ def labels(rng, n, kind, order='inc', lo=None, off=0):
     elif kind == 'f':
         base = sorted(off + x / 2.0 for x in rng.sample(range(-10, 45), n))
     else:
-        base = sorted(rng.sample(STR_POOL, n))
+        base = sorted(rng.sample(NUMSTR_POOL if rng.random() < 0.08 else STR_POOL, n))
     return reorder(rng, base, order)
 
 
@@ -33,6 +35,15 @@ def label_dtype(rng, lab, kind, p=0.1):
     if abs(lo) < 2 ** 20 and abs(hi) < 2 ** 20 and all(float(np.float32(v)) == v for v in lab):
         return 'float32'
     return None
+
+
+def extremes(rng, l, lt, p=0.3):
+    """the ends of a narrow integer type's range as labels (sentinels, full-range counters): neighbours further apart than the type can express"""
+    if lt in ('int8', 'int16', 'int32') and len(l) > 1 and rng.random() < p:
+        lo_, hi_ = min(l), max(l)
+        ii = np.iinfo(lt)
+        return [int(ii.min) if v == lo_ else int(ii.max) if v == hi_ else v for v in l]
+    return l
 
 
 def reorder(rng, base, order):
@@ -63,6 +74,8 @@ def np_labels(lab, kind, ldtype=None):
         return np.array(lab, dtype=ldtype or np.int64)
     if kind == 'f':
         return np.array(lab, dtype=ldtype or np.float64)
+    if kind == 'b':
+        return np.array(lab, dtype=bool)
     a = np.empty(len(lab), dtype=object)
     for i, v in enumerate(lab):
         a[i] = v
@@ -125,7 +138,10 @@ def spec(rng, ndim=None, dims=None, sizes=None, kinds=None, orders=None, dtype='
         orders = [orders] * n
     off = BIG if rng.random() < 0.12 else 0     # labels beyond 2**24: exact in 64-bit types only (dates written as integers)
     labs = [labels(rng, s, k, o, off=off) for s, k, o in zip(sizes, kinds, orders)]
-    return {"dims": dims, "labels": labs, "kinds": list(kinds), "ldtypes": [label_dtype(rng, l, k) if narrow else None for l, k in zip(labs, kinds)],
+    ldts = [label_dtype(rng, l, k) if narrow else None for l, k in zip(labs, kinds)]
+    for j, (l, lt) in enumerate(zip(labs, ldts)):
+        labs[j] = extremes(rng, l, lt)
+    return {"dims": dims, "labels": labs, "kinds": list(kinds), "ldtypes": ldts,
             "values": values(rng, tuple(sizes), dtype, nan),
             # history: 30 % of the arrays have had their axes' ordering queried (as an earlier align / a + b would do),
             # so that lookups run with the monotonicity cache populated
